@@ -166,11 +166,18 @@ class OpaqueV(Dom):
 class Abstract(Dom):
     """An abstract callable parameter with a contract of its own."""
 
-    def __init__(self, name, returns, ensures=None, pure=True):
+    def __init__(self, name, returns, ensures=None, pure=True, raises=(), effects=None):
         self.name = name
         self.returns = returns
         self.ensures = ensures
         self.pure = pure
+        self.raises = tuple(raises)     # exception type names the callable may raise (each explored)
+        self.effects = effects          # engine-level callable(vr, interp, args): what a call may change
+
+
+class AnyObj(Dom):
+    """An object of which nothing is used but calls of its methods (a logger): every attribute is a
+    callable without effect that returns None."""
 
 
 # ---------------------------------------------------------------------------
@@ -194,7 +201,7 @@ class Contract:
                  returns=None, modular=(), name=None, closure_env=None,
                  decreases=None, invariants=None, notes='', bound_args=None,
                  klass='PROVED', frame=None, when=None, free_vars=(),
-                 native_call=None, apply_decorators=False, heap=False, effects=None, record=False, ghost=()):
+                 native_call=None, apply_decorators=False, heap=False, effects=None, record=False, ghost=(), prepare=None):
         self.target = target
         self.prop = prop
         self.params = params
@@ -219,6 +226,7 @@ class Contract:
         self.effects = effects      # modular use: engine-level havoc of what the callee may change
         self.record = record        # record mode: ensures see the live objects, old(x) the entry snapshot
         self.ghost = tuple(ghost)   # ghost counters (symbolic ints) of this contract
+        self.prepare = prepare      # engine-level callable(vr, interp, closure, byname) run before the call
 
 
 class Lemma:
